@@ -42,6 +42,10 @@ Theorem C11_up_look_spec : forall up look,
     m3apply ROps r up = V3 0 (vnorm ROps up) 0 /\
     m3apply ROps r look = V3 0 b c /\ 0 < c.
 Proof. exact up_look_spec. Qed.
+(* "at any magnitude": only the directions matter, positive rescaling of either vector changes nothing *)
+Theorem C11_up_look_scale_invariant : forall s t up look, 0 < s -> 0 < t ->
+  rotation_from_up_and_look ROps (vscale ROps s up) (vscale ROps t look) = rotation_from_up_and_look ROps up look.
+Proof. exact up_look_scale_invariant. Qed.
 Theorem C11_up_look_rejects_zero : forall v,
   rotation_from_up_and_look ROps (V3 0 0 0) v = Raise ValueError /\
   rotation_from_up_and_look ROps v (V3 0 0 0) = Raise ValueError.
@@ -110,6 +114,9 @@ Proof. exact apply_vector_is_block. Qed.
 Theorem C11_compose_left_to_right_partial : forall ms p, Forall (affine ROps) (removelast ms) ->
   mapply_pt ROps (compose_transforms ROps ms) p = fold_left (fun q m => mapply_pt ROps m q) ms p.
 Proof. exact compose_left_to_right_butlast. Qed.
+Theorem C11_compose_left_to_right_vec_partial : forall ms p, Forall (affine ROps) (removelast ms) ->
+  mapply_vec ROps (compose_transforms ROps ms) p = fold_left (fun q m => mapply_vec ROps m q) ms p.
+Proof. exact compose_left_to_right_vec_butlast. Qed.
 (* witness (run on the implementation too): A = identity with A[3,0] = 1, B = translation by (1,0,0), p = (1,0,0):
    apply(compose(A,B))(p) = (3,0,0) but apply(B)(apply(A)(p)) = (2,0,0): apply_transform drops w without dividing *)
 Theorem C11_compose_projective_refuted : exists a b p,
@@ -168,12 +175,12 @@ Example C11_compose_partial_inhabited :
 Proof. repeat constructor; reflexivity. Qed.
 
 Definition C11_all := (C11_euler_is_ordered_product, C11_euler_applies_in_order, C11_axis_rotation_acts,
-  C11_euler_proper, C11_euler_deg_rad_agree, C11_euler_deg_pi_constant_gap, C11_up_look_spec, C11_up_look_rejects_zero,
+  C11_euler_proper, C11_euler_deg_rad_agree, C11_euler_deg_pi_constant_gap, C11_up_look_spec, C11_up_look_scale_invariant, C11_up_look_rejects_zero,
   C11_rotation_last_row, C11_rotation_acts, C11_rotation_matrix_used_as_given, C11_rotation_inverse_both_orders,
   C11_rotation_rodrigues_inverse_both_orders,
   C11_translation_last_row, C11_translation_acts, C11_translation_inverse_both_orders,
   C11_non_uniform_scale_outcome, C11_scale_rejects_zero, C11_scale_rejects_negative, C11_uniform_scale_is_non_uniform,
   C11_scale_last_row, C11_scale_acts, C11_scale_inverse_both_orders,
   C11_apply_w1_w0, C11_apply_vector_ignores_translation, C11_apply_stack_is_rowwise, C11_apply_discard_z_only_drops_z,
-  C11_compose_left_to_right_partial, C11_compose_projective_refuted, C11_apply_point_is_mapply, C11_compose_two, C11_compose_app, C11_compose_nil_identity).
+  C11_compose_left_to_right_partial, C11_compose_left_to_right_vec_partial, C11_compose_projective_refuted, C11_apply_point_is_mapply, C11_compose_two, C11_compose_app, C11_compose_nil_identity).
 Print Assumptions C11_all.
